@@ -296,3 +296,456 @@ Lemma lk_inv_reach : forall progs s,
 Proof.
   intros progs s W R. induction R; [apply lk_inv_init; auto|eapply lk_inv_step; eauto].
 Qed.
+
+(* ------------------------------------------------------------------ consequences *)
+
+Section Reachable.
+Variable progs : list (list lk_op).
+Hypothesis progs_wf : Forall (fun p => lk_wfprog p = true) progs.
+
+(* a thread in the middle of an access to library state owns the mutex *)
+Lemma lk_access_owns : forall s i,
+  lk_reach (lk_init progs) s -> lk_accessing s i ->
+  lk_held (lk_l s) = true /\ lk_pid (lk_l s) = lk_tid i.
+Proof.
+  intros s i R (rest & N).
+  destruct (lk_inv_reach _ _ progs_wf R) as (stk & TO & LO).
+  destruct (TO i _ N) as (OKi & RUN).
+  destruct (lk_srun_cons _ _ _ _ RUN) as (k' & SS & _).
+  assert (ILT : (i < length (lk_thr s))%nat) by (apply nth_error_Some; congruence).
+  assert (H : lk_holds (stk i) = true).
+  { cbn in SS. destruct (stk i) as [|f r] eqn:E; try discriminate. destruct f; try discriminate.
+    unfold lk_holds. destruct (lk_view (FWork :: r)) as [[h ii] cc] eqn:V.
+    pose proof (lk_view_props _ _ _ _ OKi V) as (_ & _ & _ & _ & TOP & _). cbn. auto. }
+  destruct LO as [(L0 & NH)|(i0 & ii & cc & I0 & V0 & L0 & NH)].
+  - rewrite (NH i ILT) in H. discriminate.
+  - destruct (Nat.eq_dec i i0) as [->|NE].
+    + rewrite L0. split; reflexivity.
+    + rewrite (NH i ILT NE) in H. discriminate.
+Qed.
+
+(* mutual exclusion: never two threads inside an access to library state *)
+Theorem lk_mutex : forall s i j,
+  lk_reach (lk_init progs) s -> lk_accessing s i -> lk_accessing s j -> i = j.
+Proof.
+  intros s i j R Ai Aj.
+  destruct (lk_access_owns s i R Ai) as (_ & Pi).
+  destruct (lk_access_owns s j R Aj) as (_ & Pj).
+  apply lk_tid_inj. congruence.
+Qed.
+
+(* a thread that owns the mutex is never refused, whatever it does next (in particular a nested
+   API call made from a callback); and it always has something left to do *)
+Theorem lk_owner_runs : forall s i,
+  lk_reach (lk_init progs) s -> lk_held (lk_l s) = true -> lk_pid (lk_l s) = lk_tid i ->
+  exists s', lk_step i s = Some s'.
+Proof.
+  intros s i R H P.
+  destruct (lk_inv_reach _ _ progs_wf R) as (stk & TO & LO).
+  destruct LO as [(L0 & NH)|(i0 & ii & cc & I0 & V0 & L0 & NH)].
+  - rewrite L0 in H. discriminate.
+  - rewrite L0 in P. cbn in P. apply lk_tid_inj in P. subst i0.
+    destruct (nth_error (lk_thr s) i) as [p|] eqn:N.
+    2:{ apply nth_error_None in N. lia. }
+    destruct (TO i _ N) as (OKi & RUN).
+    destruct p as [|o rest].
+    + cbn in RUN. injection RUN as E. rewrite E in V0. discriminate.
+    + destruct (lk_srun_cons _ _ _ _ RUN) as (k' & SS & _).
+      destruct (lk_owner_step _ _ _ (lk_tid i) _ _ OKi SS V0) as (l'' & EX' & _).
+      unfold lk_step. rewrite N, L0, EX'. eauto.
+Qed.
+
+(* whenever the mutex is free, the whole lock is back in its initial state *)
+Theorem lk_free_is_initial : forall s,
+  lk_reach (lk_init progs) s -> lk_held (lk_l s) = false -> lk_l s = lk_lock0.
+Proof.
+  intros s R H.
+  destruct (lk_inv_reach _ _ progs_wf R) as (stk & TO & LO).
+  destruct LO as [(L0 & NH)|(i0 & ii & cc & I0 & V0 & L0 & NH)]; auto.
+  rewrite L0 in H. discriminate.
+Qed.
+
+(* the counters never go below zero (no wrap of the unsigned C counters), and lock_count is
+   only used while in_callback is non-zero *)
+Theorem lk_counters_nonneg : forall s,
+  lk_reach (lk_init progs) s ->
+  0 <= lk_incb (lk_l s) /\ 0 <= lk_cnt (lk_l s) /\ (lk_incb (lk_l s) = 0 -> lk_cnt (lk_l s) = 0).
+Proof.
+  intros s R.
+  destruct (lk_inv_reach _ _ progs_wf R) as (stk & TO & LO).
+  destruct LO as [(L0 & NH)|(i0 & ii & cc & I0 & V0 & L0 & NH)].
+  - rewrite L0. cbn. lia.
+  - rewrite L0. cbn.
+    destruct (nth_error (lk_thr s) i0) as [p|] eqn:N.
+    2:{ apply nth_error_None in N. lia. }
+    destruct (TO i0 _ N) as (OKi & _).
+    pose proof (lk_view_props _ _ _ _ OKi V0) as (A & B & _ & C & _). auto.
+Qed.
+
+(* no deadlock: unless every thread has returned, some thread can move *)
+Theorem lk_progress : forall s,
+  lk_reach (lk_init progs) s -> lk_all_doneb s = false -> exists i s', lk_step i s = Some s'.
+Proof.
+  intros s R ND.
+  destruct (lk_held (lk_l s)) eqn:H.
+  - destruct (lk_inv_reach _ _ progs_wf R) as (stk & TO & LO).
+    destruct LO as [(L0 & NH)|(i0 & ii & cc & I0 & V0 & L0 & NH)].
+    + rewrite L0 in H. discriminate.
+    + exists i0. apply lk_owner_runs; auto. rewrite L0. reflexivity.
+  - pose proof (lk_free_is_initial s R H) as L0.
+    destruct (lk_inv_reach _ _ progs_wf R) as (stk & TO & LO).
+    destruct LO as [(_ & NH)|(i0 & ii & cc & I0 & V0 & L0' & NH)].
+    2:{ rewrite L0' in H. discriminate. }
+    unfold lk_all_doneb in ND.
+    assert (EX : exists p, In p (lk_thr s) /\ p <> []).
+    { clear -ND. induction (lk_thr s) as [|p tl IH]; [discriminate|].
+      cbn in ND. destruct p as [|o r].
+      - destruct (IH ND) as (q & I & Q). exists q. split; auto. right; auto.
+      - exists (o :: r). split; [left; auto|discriminate]. }
+    destruct EX as (p & I & NE). destruct (In_nth_error _ _ I) as (i & N).
+    destruct p as [|o rest]; [congruence|].
+    destruct (TO i _ N) as (OKi & RUN).
+    destruct (lk_srun_cons _ _ _ _ RUN) as (k' & SS & _).
+    assert (ILT : (i < length (lk_thr s))%nat) by (apply nth_error_Some; congruence).
+    destruct (lk_waiter_step _ _ _ OKi SS (NH i ILT)) as ((g & ->) & _).
+    exists i. unfold lk_step. rewrite N, L0, lk_lock_free. eauto.
+Qed.
+
+(* "no thread blocks forever once the others return": the last thread standing always runs *)
+Theorem lk_last_thread_runs : forall s i o rest,
+  lk_reach (lk_init progs) s ->
+  nth_error (lk_thr s) i = Some (o :: rest) ->
+  (forall j, j <> i -> nth_error (lk_thr s) j = Some [] \/ nth_error (lk_thr s) j = None) ->
+  exists s', lk_step i s = Some s'.
+Proof.
+  intros s i o rest R N OTH.
+  assert (ND : lk_all_doneb s = false).
+  { unfold lk_all_doneb. apply not_true_is_false. intro A.
+    rewrite forallb_forall in A. specialize (A _ (nth_error_In _ _ N)). discriminate. }
+  destruct (lk_progress s R ND) as (j & s' & ST).
+  destruct (Nat.eq_dec j i) as [->|NE]; [eauto|].
+  unfold lk_step in ST. destruct (OTH j NE) as [E|E]; rewrite E in ST; discriminate.
+Qed.
+
+End Reachable.
+
+(* ------------------------------------------------------------------ every call completes *)
+
+Definition lk_total (s : lk_state) : nat :=
+  fold_right (fun p a => (length p + a)%nat) 0%nat (lk_thr s).
+
+Lemma lk_total_upd : forall (thr : list (list lk_op)) i o rest,
+  nth_error thr i = Some (o :: rest) ->
+  S (fold_right (fun p a => (length p + a)%nat) 0%nat (lk_upd thr i rest)) =
+  fold_right (fun p a => (length p + a)%nat) 0%nat thr.
+Proof.
+  induction thr as [|p tl IH]; intros i o rest N; destruct i; cbn in *; try discriminate.
+  - injection N as ->. cbn. lia.
+  - rewrite <- (IH _ _ _ N). lia.
+Qed.
+
+Lemma lk_step_total : forall i s s', lk_step i s = Some s' -> S (lk_total s') = lk_total s.
+Proof.
+  intros i s s' ST. unfold lk_step in ST.
+  destruct (nth_error (lk_thr s) i) as [[|o rest]|] eqn:N; try discriminate.
+  destruct (lk_exec (lk_tid i) o (lk_l s)); try discriminate.
+  injection ST as <-. unfold lk_total. cbn [lk_thr]. eapply lk_total_upd; eauto.
+Qed.
+
+Lemma lk_total_zero_done : forall s, lk_total s = 0%nat -> lk_all_doneb s = true.
+Proof.
+  intros s. unfold lk_total, lk_all_doneb. induction (lk_thr s) as [|p tl IH]; cbn; auto.
+  destruct p; cbn; [auto|discriminate].
+Qed.
+
+Lemma lk_reach_trans_step : forall s0 s i s',
+  lk_reach s0 s -> lk_step i s = Some s' -> lk_reach s0 s'.
+Proof. intros; eapply lk_reach_step; eauto. Qed.
+
+Section Completes.
+Variable progs : list (list lk_op).
+Hypothesis progs_wf : Forall (fun p => lk_wfprog p = true) progs.
+
+(* from every reachable state there is a schedule that lets every thread return, and whenever
+   all threads have returned the lock is in its initial state.  Every step consumes one
+   instruction, so together with lk_progress: every maximal execution is finite and ends with
+   all calls completed (no deadlock and no livelock). *)
+Theorem lk_completes : forall s,
+  lk_reach (lk_init progs) s ->
+  exists sched, lk_reach (lk_init progs) (lk_run sched s) /\
+                lk_all_doneb (lk_run sched s) = true.
+Proof.
+  intros s R. remember (lk_total s) as n eqn:T. revert s R T.
+  induction n as [|n IH]; intros s R T.
+  - exists []. cbn. split; auto. apply lk_total_zero_done; auto.
+  - destruct (lk_all_doneb s) eqn:D.
+    + exists []. cbn. auto.
+    + destruct (lk_progress progs progs_wf s R D) as (i & s' & ST).
+      pose proof (lk_step_total _ _ _ ST) as T'.
+      destruct (IH s' (lk_reach_trans_step _ _ _ _ R ST)) as (sched & R' & D'); [lia|].
+      exists (i :: sched). cbn [lk_run]. rewrite ST. auto.
+Qed.
+
+Theorem lk_done_released : forall s,
+  lk_reach (lk_init progs) s -> lk_all_doneb s = true -> lk_l s = lk_lock0.
+Proof.
+  intros s R D.
+  destruct (lk_held (lk_l s)) eqn:H; [|apply (lk_free_is_initial progs progs_wf); auto].
+  destruct (lk_inv_reach _ _ progs_wf R) as (stk & TO & LO).
+  destruct LO as [(L0 & NH)|(i0 & ii & cc & I0 & V0 & L0 & NH)]; auto.
+  destruct (nth_error (lk_thr s) i0) as [p|] eqn:N.
+  2:{ apply nth_error_None in N. lia. }
+  destruct (TO i0 _ N) as (_ & RUN).
+  unfold lk_all_doneb in D. rewrite forallb_forall in D.
+  specialize (D _ (nth_error_In _ _ N)). destruct p; [|discriminate].
+  cbn in RUN. injection RUN as E. rewrite E in V0. discriminate.
+Qed.
+
+(* the number of steps of any execution is bounded by the size of the programs *)
+Theorem lk_steps_bounded : forall s,
+  lk_reach (lk_init progs) s -> (lk_total s <= lk_total (lk_init progs))%nat.
+Proof.
+  intros s R. induction R; auto. pose proof (lk_step_total _ _ _ H). lia.
+Qed.
+
+End Completes.
+
+(* ------------------------------------------------------------------ structured programs *)
+
+Scheme lk_calls_mut := Induction for lk_calls Sort Prop
+with lk_items_mut := Induction for lk_items Sort Prop.
+Combined Scheme lk_prog_mutind from lk_calls_mut, lk_items_mut.
+
+Definition lk_appmode (k : lk_stack) : bool :=
+  match k with [] | FKeep :: _ | FRel :: _ => true | _ => false end.
+
+Lemma lk_srun_app : forall p q k,
+  lk_srun k (p ++ q) = match lk_srun k p with Some k' => lk_srun k' q | None => None end.
+Proof.
+  induction p as [|o p IH]; intros q k; cbn; auto.
+  destruct (lk_sstep k o); auto.
+Qed.
+
+(* the canonical flattening is balanced: application code returns to the frame it started in *)
+Lemma lk_flat_balanced :
+  (forall p k, lk_appmode k = true -> lk_srun k (lk_flat lk_canon p) = Some k) /\
+  (forall b k, lk_srun (FCall :: k) (lk_flat_items lk_canon b) = Some (FCall :: k)).
+Proof.
+  apply lk_prog_mutind.
+  - intros k A. reflexivity.
+  - intros b IHb n IHn k A. cbn [lk_flat lk_canon lk_m_api lk_canon_api lk_expand flat_map].
+    rewrite app_nil_r. rewrite <- !app_assoc. cbn [app].
+    assert (S1 : forall q, lk_srun k (LkLock LkTApi :: q) = lk_srun (FCall :: k) q).
+    { intros q. destruct k as [|f r]; auto. destruct f; auto; discriminate. }
+    rewrite S1. rewrite lk_srun_app. fold lk_canon. rewrite IHb. cbn [lk_srun lk_sstep].
+    apply IHn; auto.
+  - intros k. reflexivity.
+  - intros n IHn k. cbn [lk_flat_items lk_srun lk_sstep]. apply IHn.
+  - intros kd ap IHa n IHn k.
+    destruct kd; cbn [lk_flat_items lk_macro lk_canon lk_m_keep lk_m_keepret lk_m_rel lk_m_relret
+                       lk_m_wait lk_canon_keep lk_canon_rel lk_expand flat_map];
+      rewrite app_nil_r; rewrite <- !app_assoc; cbn [app]; cbn [lk_srun lk_sstep];
+      rewrite lk_srun_app; fold lk_canon; rewrite IHa by reflexivity; cbn [lk_srun lk_sstep];
+      apply IHn.
+Qed.
+
+Lemma lk_flat_wf : forall p, lk_wfprog (lk_flat lk_canon p) = true.
+Proof.
+  intros p. unfold lk_wfprog. rewrite (proj1 lk_flat_balanced p []); auto.
+Qed.
+
+Lemma lk_mops_eqb_eq : forall a b, lk_mops_eqb a b = true -> a = b.
+Proof.
+  induction a as [|x a IH]; destruct b as [|y b]; cbn; intros H; try discriminate; auto.
+  apply andb_true_iff in H. destruct H as [E H]. f_equal; auto.
+  destruct x, y; cbn in E; try discriminate; auto.
+Qed.
+
+(* a configuration that passes lk_cfg_wf expands every program exactly like the canonical one *)
+Lemma lk_cfg_wf_macros : forall c, lk_cfg_wf c = true ->
+  lk_m_api c = lk_canon_api /\ lk_m_keep c = lk_canon_keep /\ lk_m_keepret c = lk_canon_keep /\
+  lk_m_rel c = lk_canon_rel /\ lk_m_relret c = lk_canon_rel /\ lk_m_wait c = lk_canon_rel /\
+  lk_compiled c = true /\ lk_reports c = true /\ lk_api_ok c = true /\ lk_cb_ok c = true.
+Proof.
+  intros c W. unfold lk_cfg_wf in W. repeat (apply andb_true_iff in W; destruct W as [W ?]).
+  repeat match goal with H : lk_mops_eqb _ _ = true |- _ => apply lk_mops_eqb_eq in H end.
+  destruct (lk_compiled c); [|discriminate].
+  destruct (lk_reports c); [|discriminate]. repeat split; auto.
+Qed.
+
+Lemma lk_flat_cfg : forall c, lk_cfg_wf c = true ->
+  (forall p, lk_flat c p = lk_flat lk_canon p) /\
+  (forall b, lk_flat_items c b = lk_flat_items lk_canon b).
+Proof.
+  intros c W. destruct (lk_cfg_wf_macros c W) as (A & K & KR & R & RR & WT & _).
+  apply lk_prog_mutind.
+  - reflexivity.
+  - intros b IHb n IHn. cbn [lk_flat]. rewrite A, IHb, IHn. reflexivity.
+  - reflexivity.
+  - intros n IHn. cbn [lk_flat_items]. rewrite IHn. reflexivity.
+  - intros kd ap IHa n IHn. cbn [lk_flat_items]. rewrite IHa, IHn.
+    destruct kd; cbn [lk_macro]; rewrite ?K, ?KR, ?R, ?RR, ?WT; reflexivity.
+Qed.
+
+Lemma lk_flat_all_wf : forall c progs, lk_cfg_wf c = true ->
+  Forall (fun p => lk_wfprog p = true) (map (lk_flat c) progs).
+Proof.
+  intros c progs W. apply Forall_forall. intros p I. apply in_map_iff in I.
+  destruct I as (q & <- & _). rewrite (proj1 (lk_flat_cfg c W)). apply lk_flat_wf.
+Qed.
+
+(* a thread whose remaining program is a sequence of complete API calls is outside any call:
+   it does not own the lock *)
+Lemma lk_outside_not_owner : forall c progs s i rest,
+  lk_cfg_wf c = true ->
+  lk_reach (lk_init (map (lk_flat c) progs)) s ->
+  nth_error (lk_thr s) i = Some (lk_flat c rest) ->
+  lk_pid (lk_l s) <> lk_tid i.
+Proof.
+  intros c progs s i rest W R N.
+  destruct (lk_inv_reach _ _ (lk_flat_all_wf c progs W) R) as (stk & TO & LO).
+  destruct (TO i _ N) as (OKi & RUN).
+  rewrite (proj1 (lk_flat_cfg c W)) in RUN.
+  assert (E : stk i = []).
+  { destruct (lk_appmode (stk i)) eqn:A.
+    - rewrite (proj1 lk_flat_balanced rest _ A) in RUN. congruence.
+    - destruct rest as [|b n].
+      + cbn in RUN. congruence.
+      + cbn [lk_flat lk_canon lk_m_api lk_canon_api lk_expand flat_map] in RUN.
+        cbn in RUN. destruct (stk i) as [|f r]; [discriminate|].
+        destruct f; try discriminate. }
+  destruct LO as [(L0 & NH)|(i0 & ii & cc & I0 & V0 & L0 & NH)].
+  - rewrite L0. cbn. unfold lk_tid. lia.
+  - rewrite L0. cbn. intro P. apply lk_tid_inj in P. subst i0. rewrite E in V0. discriminate.
+Qed.
+
+(* ------------------------------------------------------------------ the theorems per configuration *)
+
+Lemma lk_run_reach : forall s0 sched s, lk_reach s0 s -> lk_reach s0 (lk_run sched s).
+Proof.
+  induction sched as [|i tl IH]; intros s R; cbn; auto.
+  destruct (lk_step i s) eqn:ST; auto. apply IH. eapply lk_reach_step; eauto.
+Qed.
+
+Section PerConfig.
+Variable c : lk_cfg.
+Hypothesis c_wf : lk_cfg_wf c = true.
+Variable progs : list lk_calls.
+Let init := lk_init (map (lk_flat c) progs).
+Let wf := lk_flat_all_wf c progs c_wf.
+
+Theorem lk_cfg_mutex : forall s i j,
+  lk_reach init s -> lk_accessing s i -> lk_accessing s j -> i = j.
+Proof. exact (lk_mutex _ wf). Qed.
+
+Theorem lk_cfg_access_owns : forall s i,
+  lk_reach init s -> lk_accessing s i ->
+  lk_held (lk_l s) = true /\ lk_pid (lk_l s) = lk_tid i.
+Proof. exact (lk_access_owns _ wf). Qed.
+
+Theorem lk_cfg_reentry : forall s i,
+  lk_reach init s -> lk_held (lk_l s) = true -> lk_pid (lk_l s) = lk_tid i ->
+  exists s', lk_step i s = Some s'.
+Proof. exact (lk_owner_runs _ wf). Qed.
+
+Theorem lk_cfg_released : forall s,
+  lk_reach init s ->
+  (forall i rest, nth_error (lk_thr s) i = Some (lk_flat c rest) -> lk_pid (lk_l s) <> lk_tid i) /\
+  (lk_held (lk_l s) = false -> lk_l s = lk_lock0) /\
+  (lk_all_doneb s = true -> lk_l s = lk_lock0).
+Proof.
+  intros s R. split; [|split].
+  - intros i rest N. eapply lk_outside_not_owner; eauto.
+  - apply (lk_free_is_initial _ wf); auto.
+  - apply (lk_done_released _ wf); auto.
+Qed.
+
+Theorem lk_cfg_no_deadlock : forall s,
+  lk_reach init s -> lk_all_doneb s = false -> exists i s', lk_step i s = Some s'.
+Proof. exact (lk_progress _ wf). Qed.
+
+Theorem lk_cfg_completes : forall s,
+  lk_reach init s ->
+  (lk_total s <= lk_total init)%nat /\
+  exists sched, lk_reach init (lk_run sched s) /\ lk_all_doneb (lk_run sched s) = true /\
+                lk_l (lk_run sched s) = lk_lock0.
+Proof.
+  intros s R. split; [apply (lk_steps_bounded _ s R)|].
+  destruct (lk_completes _ wf s R) as (sched & R' & D).
+  exists sched. repeat split; auto. apply (lk_done_released _ wf); auto.
+Qed.
+
+Theorem lk_cfg_last_thread_runs : forall s i o rest,
+  lk_reach init s ->
+  nth_error (lk_thr s) i = Some (o :: rest) ->
+  (forall j, j <> i -> nth_error (lk_thr s) j = Some [] \/ nth_error (lk_thr s) j = None) ->
+  exists s', lk_step i s = Some s'.
+Proof. exact (lk_last_thread_runs _ wf). Qed.
+
+Theorem lk_cfg_counters : forall s,
+  lk_reach init s ->
+  0 <= lk_incb (lk_l s) /\ 0 <= lk_cnt (lk_l s) /\ (lk_incb (lk_l s) = 0 -> lk_cnt (lk_l s) = 0).
+Proof. exact (lk_counters_nonneg _ wf). Qed.
+
+End PerConfig.
+
+(* ------------------------------------------------------------------ witnesses *)
+
+(* one API call that touches library state *)
+Definition lk_ex_work : lk_calls := LkCall (LkWork LkRet) LkDone.
+(* one API call whose body runs an event handler (coap_lock_callback_ret) and then touches state *)
+Definition lk_ex_event : lk_calls := LkCall (LkCb LkKeepRet LkDone (LkWork LkRet)) LkDone.
+
+(* before /repo commit 0dc3221: thread 0 makes one call that runs an event handler and returns;
+   the mutex stays locked; thread 1's first call then waits for ever *)
+Theorem lk_double_inc_refuted :
+  exists progs sched,
+    let s := lk_run sched (lk_init (map (lk_flat lk_cfg_double_inc) progs)) in
+    nth_error (lk_thr s) 0 = Some [] /\ lk_held (lk_l s) = true /\
+    lk_stuckb s = true /\ lk_verdict s = 2.
+Proof.
+  exists [lk_ex_event; lk_ex_work], [0; 0; 0; 0; 0; 0; 0; 1; 1]%nat.
+  vm_compute. repeat split; reflexivity.
+Qed.
+
+(* before /repo commit b19334a: no locking is compiled in although support is reported; two
+   threads are inside library state at the same time *)
+Theorem lk_cmake_on_refuted :
+  lk_reports lk_cfg_cmake_on = true /\
+  exists progs sched,
+    let s := lk_run sched (lk_init (map (lk_flat lk_cfg_cmake_on) progs)) in
+    lk_accessingb s 0 = true /\ lk_accessingb s 1 = true /\ lk_verdict s = 1.
+Proof.
+  split; [reflexivity|].
+  exists [lk_ex_work; lk_ex_work], [0; 1]%nat. vm_compute. repeat split; reflexivity.
+Qed.
+
+Theorem lk_historical_cfgs_rejected :
+  lk_cfg_wf lk_cfg_double_inc = false /\ lk_cfg_wf lk_cfg_cmake_on = false /\
+  lk_cfg_wf lk_canon = true.
+Proof. repeat split; reflexivity. Qed.
+
+(* non-vacuity: three threads; thread 0 is two callbacks deep (event handler -> send -> pong
+   handler -> send), in_callback = 2, lock_count = 2, accessing library state; thread 1 waits
+   for the lock; thread 2 sits in coap_io_process's wait with the lock released ... *)
+Definition lk_ex_nested : lk_calls :=
+  LkCall (LkCb LkKeepRet
+            (LkCall (LkCb LkKeep (LkCall (LkWork LkRet) LkDone) (LkWork LkRet)) LkDone)
+            (LkWork LkRet)) LkDone.
+Definition lk_ex_io : lk_calls :=
+  LkCall (LkCb LkWait LkDone
+         (LkCb LkRel (LkCall (LkWork LkRet) LkDone) (LkWork LkRet))) LkDone.
+
+Theorem lk_nonvacuous :
+  let progs := [lk_ex_nested; lk_ex_work; lk_ex_io] in
+  lk_cfg_wf lk_canon = true /\
+  exists sched,
+    let s := lk_run sched (lk_init (map (lk_flat lk_canon) progs)) in
+    lk_reach (lk_init (map (lk_flat lk_canon) progs)) s /\
+    lk_l s = lk_mk (lk_tid 0) 2 2 /\ lk_accessingb s 0 = true /\
+    lk_enabledb s 1 = false /\ lk_enabledb s 0 = true /\ lk_verdict s = 0.
+Proof.
+  split; [reflexivity|].
+  exists [2; 2; 0; 0; 0; 0; 0; 0; 1]%nat. split; [apply lk_run_reach; constructor|].
+  vm_compute. repeat split; reflexivity.
+Qed.
